@@ -308,10 +308,12 @@ func polls(th *lua.LState) bool { return th.Context() != nil && lua.VerifCtxPoll
 //	C<w><p>  coroutine boundary (resume or wrap function in the parent), w wrapped, p child has a context
 func (e *env) snapshot(th *lua.LState) []string {
 	var out []string
+	goHandlerExit := false
 	if e.c != nil && e.c.kind == 2 {
 		// the poll being handled is the one after a Go function: that function's frame is gone,
 		// what is left of it is the entry that polls
 		out = append(out, "E")
+		goHandlerExit = pollIsAfterGoHandler()
 	}
 	var child *lua.LState
 	for cur := th; cur != nil; cur = cur.Parent {
@@ -371,6 +373,12 @@ func (e *env) snapshot(th *lua.LState) []string {
 						running = true
 					}
 				}
+				if goHandlerExit && cur == th && h == "g" && !running {
+					// the Go function that has just returned is this xpcall's handler (its frame
+					// is gone, the Go stack shows PCall's deferred function calling it)
+					running = true
+					goHandlerExit = false
+				}
 				out = append(out, "X"+h+tf(running))
 			default:
 				out = append(out, "G")
@@ -383,6 +391,38 @@ func (e *env) snapshot(th *lua.LState) []string {
 		child = cur
 	}
 	return out
+}
+
+// pollIsAfterGoHandler: the poll after a Go function is being handled; was that function called by
+// the deferred function of LState.PCall, i.e. as the error handler of xpcall?  (Go call stack:
+// pollContextAfterGFunction <- mainLoopWithContext <- callR <- Call <- PCall.func1.)
+func pollIsAfterGoHandler() bool {
+	var pcs [24]uintptr
+	n := runtime.Callers(2, pcs[:])
+	frames := runtime.CallersFrames(pcs[:n])
+	state := 0
+	for {
+		fr, more := frames.Next()
+		switch state {
+		case 0:
+			if strings.HasSuffix(fr.Function, ".callR") {
+				state = 1
+			}
+		case 1:
+			if strings.HasSuffix(fr.Function, ".Call") {
+				state = 2
+			} else if strings.Contains(fr.Function, ".PCall.func1") {
+				return !strings.Contains(fr.Function, ".PCall.func1.")
+			} else {
+				return false
+			}
+		case 2:
+			return strings.Contains(fr.Function, ".PCall.func1") && !strings.Contains(fr.Function, ".PCall.func1.")
+		}
+		if !more {
+			return false
+		}
+	}
 }
 
 func tf(b bool) string {
